@@ -49,6 +49,9 @@ THEOREMS = [
     "BeyondVerif.C19W.sign_selection_degenerate",
     "BeyondVerif.C19W.code_selection_polar",
     "BeyondVerif.C19W.sign_selection_not_equivalent",
+    "BeyondVerif.C19.timedelta_reads_total_seconds",
+    "BeyondVerif.C19.td_total_sub_seconds",
+    "BeyondVerif.C19.td_seconds_ne_total",
     "BeyondVerif.C19.j2_setter_unconditional",
     "BeyondVerif.C19.j2_getter_private_copy",
     "BeyondVerif.C19.j2_run_priv_irrelevant",
@@ -81,7 +84,8 @@ LEVEL_TEXT = ("Lean theorems over R about formulas translated from the Python so
               "returned state have the sign the request asks for; the Kepler-equation theorem holds with the single geometric hypothesis r0 x r1 != 0; kernel-checked witness that a "
               "sign(cr[2])-based selection degenerates at cr[2] = 0. J2 propagator object as a state machine (user's orbit + private copy; setter text regenerated from the AST and "
               "proved to be the unconditional copy): along every history of propagations and in-place writes of elements / date on one orbit object each propagation returns what a fresh "
-              "object built from the current values returns, and once the inclination is sso(a, e) of the current a, e the node moves at the solar rate.")
+              "object built from the current values returns, and once the inclination is sso(a, e) of the current a, e the node moves at the solar rate. "
+              "Durations: every read of a timedelta as a number in the anchored files (regenerated from the AST) is total_seconds() - of _F and of J2.propagate; a read of .seconds would lose at least 86400 s from one day on.")
 LEVEL_NOTE = ("R -> double gap covered only by tolerance-bounded correspondence (this gap is where the two findings, now fixed in /repo, lived: NaN from a Newton overshoot "
               "- 5cfb34d, NaN from arcsin(1+ulp) - 1d112fc; their oracle families stay alive); existence of the Lambert root, convergence of scan + Newton, and 'the universal-variable f-g map is the two-body flow' are not proved; "
               "Lean kernel + propext/Classical.choice/Quot.sound; py2lean translator and harness trusted")
@@ -92,7 +96,8 @@ TRUSTED = [
     "lean/templates/Mission.tpl (hand-written: 3-vector algebra, scan and Newton loops, v0/v1 assembly, Walker generator loops, bplane, the J2Obj state machine - its setter is the "
     "unconditional copy that theorem j2_setter_unconditional reads off the regenerated setter text), tied by the correspondence run",
     "TrSel / dtheta_def / accessor_stmts in harness/props/C19.py: the statements of _lambert before `A = ...` -> Generated/LambertFn.lamDthetaSrc, the arithmetic of beta() -> Generated/BetaFn.betaSrc (+ the surrounding object-access statements as text, betaEnv) (3-vectors as components, np.cross, np.linalg.norm, `@`, np.sign, "
-    "if/elif); the unparsed statements of the J2.orbit getter and setter -> Generated/LeoFn.j2OrbitGetter / j2OrbitSetter",
+    "if/elif); the unparsed statements of the J2.orbit getter and setter -> Generated/LeoFn.j2OrbitGetter / j2OrbitSetter; timedelta_reads: every attribute read .total_seconds/.seconds/.days/.microseconds "
+    "of the anchored files -> Generated/LeoFn.timedeltaReads",
     "numpy / libm double arithmetic vs R: tolerance 1e-9 relative (1e-7 (1 + 0.01/dE^2) on Lambert velocities after the iteration, whose exit criterion is an absolute 1e-8 in z = dE^2), Walker fleets bit-exact",
 ]
 ASSUMPTIONS = [
@@ -100,6 +105,7 @@ ASSUMPTIONS = [
     "Lambert: F(z) = 0 (resp. the convergence flag) is a hypothesis; y(z) >= 0, C(z) > 0, mu > 0, g != 0; geometry: r0 != 0, r1 != 0, r0 x r1 != 0 as a vector (no condition on single components)",
     "oracle on hand-written geometry: positions 15 to 165 deg apart, transfer time 1.05 to 5 times the parabolic time (Euler's equation) of the way round that the request designates - an elliptic solution of "
     "less than one revolution exists; for cr[2] = 0 or |cr[2]| <= 1e-9 |r0||r1| (polar transfer plane, neither way is pro- or retrograde) the time exceeds both parabolic times and either way is accepted",
+    "durations: the model's lamF / lambert take the transfer time in seconds; the harness hands it tdTotal(days, seconds, microseconds) (Model/Mission, compared bit-exactly with timedelta.total_seconds())",
     "J2 histories: the user's orbit is kept in keplerian_mean form (writes by index 0..5 and of the date); the model's epoch is seconds from the first epoch",
     "sso: a > 0, mu > 0, re != 0, J2 != 0, e^2 != 1 (0 <= e < 1 for the eccentricity mode) and -1 <= ssoCos <= 1 (a sun-synchronous inclination exists)",
     "the 'mean solar rate' is the constant the code uses, 2 pi / 365.256363004 d (sidereal year); the tropical-year rate differs from it by 3.9e-5 relative",
@@ -130,6 +136,8 @@ RULE = ("correspondence: random inputs from ctx.rng through the real functions a
         "bplane for e in [1.05,10] incl. hyperbolas in coordinate planes; non-trivial = every case; distinct = distinct request. "
         "oracle: Lambert arrival within 10 m by independent (bracketed) universal-variable propagation and by the Kepler propagator through the public lambert(); on hand-written geometry both requests: finite, arrival at "
         "both ends, direction of r0 x v0, two ways round; sso round trips + node rate; sso -> Orbit(J2) -> propagate|iter -> tune i|a|e in place -> propagate|iter: solar rate and equal to a fresh object; "
+        "Lambert durations from minutes (fractional seconds) to 60 days (exactly n days, n days + fraction, 24 h + a little) as timedelta(days, seconds, microseconds), propagated for the requested duration, both ends, both requests, both APIs; "
+        "an exception inside an oracle case is a failing input of that case; "
         "ltan round trips; Walker count/planes/in-plane/phasing (thorough: every p <= 6, t/p <= 4, f < p); beta range + elevation incl. bodies on the orbit normal and on the axes; "
         "bplane S/orthonormal/B perp/|B|/B x v_inf = h incl. coordinate planes; read - modify in place - read again on the objects handed to beta, bplane and on Walker objects")
 
@@ -271,6 +279,27 @@ def accessor_stmts(path, cls, name):
     return get, set_
 
 
+TIMEDELTA_FILES = [("utils", "lambert.py"), ("utils", "leo.py"), ("utils", "ltan.py"), ("utils", "constellation.py"), ("utils", "beta.py"),
+                   ("utils", "interplanetary.py"), ("propagators", "j2.py")]
+
+
+def timedelta_reads():
+    """every place of the anchored files where a duration is turned into a number: attribute reads `.total_seconds` / `.seconds` /
+    `.days` / `.microseconds`, as "<file>:<function>: <expression>" in source order"""
+    out = []
+    for parts in TIMEDELTA_FILES:
+        tree = ast.parse(open(src(*parts)).read())
+
+        def visit(node, qual):
+            for ch in ast.iter_child_nodes(node):
+                q = qual + [ch.name] if isinstance(ch, (ast.FunctionDef, ast.ClassDef)) else qual
+                if isinstance(ch, ast.Attribute) and ch.attr in ("total_seconds", "seconds", "days", "microseconds"):
+                    out.append((ch.lineno, ch.col_offset, f"{parts[-1]}:{'.'.join(q)}: {ast.unparse(ch)}"))
+                visit(ch, q)
+        visit(tree, [])
+    return [t for _, _, t in sorted(out, key=lambda x: (x[2].split(":")[0], x[0], x[1]))]
+
+
 def lean_strs(xs):
     return "[" + ", ".join('"' + x.replace("\\", "\\\\").replace('"', '\\"').replace("\n", "\\n") + '"' for x in xs) + "]"
 
@@ -301,7 +330,9 @@ def extract(ctx):
         py2lean.translate_slice(src("propagators", "j2.py"), "J2.propagate", ["n", "re", "a", "e", "i", "j2"], ["dΩ", "dω", "dM"], "j2Rates", consts={"Earth.J2": "j2"}),
         "/-- the statements of the getter / setter of `J2.orbit`, as text (what the propagator keeps between two calls) -/\n"
         "def j2OrbitGetter : List String := " + lean_strs(accessor_stmts(src("propagators", "j2.py"), "J2", "orbit")[0]) + "\n\n"
-        "def j2OrbitSetter : List String := " + lean_strs(accessor_stmts(src("propagators", "j2.py"), "J2", "orbit")[1]) + "\n",
+        "def j2OrbitSetter : List String := " + lean_strs(accessor_stmts(src("propagators", "j2.py"), "J2", "orbit")[1]) + "\n\n"
+        "/-- every read of a duration as a number in the anchored files (lambert, leo, ltan, constellation, beta, interplanetary, j2) -/\n"
+        "def timedeltaReads : List String := " + lean_strs(timedelta_reads()) + "\n",
     ])
     ch += py2lean.instantiate(core.LEAN, "LeoFn", body, "beyond/utils/leo.py, beyond/propagators/j2.py, beyond/orbits/statevector.py (Infos.n)")
     T = src("utils", "ltan.py")
@@ -332,6 +363,8 @@ def stumpff(z):
         return (1 - math.cos(s)) / z, (s - math.sin(s)) / s ** 3
     if z < -1e-6:
         s = math.sqrt(-z)
+        if s > 700:
+            return math.inf, math.inf      # a hyperbolic state far beyond the root (bracketing of kepler_uv): F = +inf there
         return (math.cosh(s) - 1) / (-z), (math.sinh(s) - s) / s ** 3
     return 0.5 - z / 24 + z * z / 720, 1 / 6 - z / 120 + z * z / 5040
 
@@ -404,7 +437,7 @@ def nu2ME(nu, e):
 
 def gen_lambert(rng, small=False):
     """an elliptic arc of less than one revolution, described by the orbit it was cut from"""
-    a = rng.choice([rng.uniform(6.7e6, 9e6), rng.uniform(9e6, 5e7)])
+    a = rng.choice([rng.uniform(6.7e6, 9e6), rng.uniform(9e6, 5e7), rng.uniform(9e6, 5e7), rng.uniform(5e7, 1e9)])     # periods from 1.5 h to 115 days
     e = rng.uniform(0, 0.8)
     a = max(a, 6.6e6 / (1 - e))
     i = rng.choice([rng.uniform(0.02, 1.45), rng.uniform(1.69, math.pi - 0.02)])
@@ -477,9 +510,10 @@ def check_lambert(out, c, use_orbit_api):
         if not dv1 < 1e-2:
             out.fail(fam + "-v1", "arrival velocity returned by lambert() differs from the propagated departure state", inp, observed=dv1, expected="< 1e-2 m/s")
             return
-    if not err < 10.0:
+    tol = max(10.0, 2e-9 * float(np.linalg.norm(r0) + np.linalg.norm(r1)))
+    if not err < tol:
         out.fail(fam, "velocity returned by the Lambert solver does not arrive at the target position (two-body propagation over the transfer time)", inp,
-                 observed={"miss_m": err, "v0": [float(x) for x in v0]}, expected={"miss_m": "< 10", "v0": [float(x) for x in v0t]})
+                 observed={"miss_m": err, "v0": [float(x) for x in v0]}, expected={"miss_m": f"< {tol}", "v0": [float(x) for x in v0t]})
 
 
 # ---------------------------------------------------------------- Lambert on hand-written geometry: exact zeros, axis-aligned positions
@@ -689,6 +723,96 @@ def check_lambert_pair(out, rng, axis, use_orbit_api):
         if not float(np.linalg.norm(va - vb)) > 1.0:
             out.fail("lambert-geom-two-ways-crz0", "prograde and retrograde requests return the same transfer", dict(g, factor=factor),
                      observed=[float(x) for x in va], expected="two different ways round")
+
+
+# ---------------------------------------------------------------- transfer durations from minutes to tens of days
+
+DURATION_KINDS = ["minutes", "hours", "n-days", "days-fraction", "tens-of-days", "just-over-a-day"]
+
+
+def gen_duration(rng, kind=None):
+    """(days, seconds, microseconds) of a normalised timedelta and its kind: minutes with a fractional second, hours, exactly n days,
+    days + seconds + microseconds, tens of days, 24 h plus a little"""
+    kind = kind or rng.choice(DURATION_KINDS)
+    if kind == "minutes":
+        d, sec, us = 0, rng.randint(300, 3599), rng.randint(1, 999999)
+    elif kind == "hours":
+        d, sec, us = 0, rng.randint(3600, 86399), rng.choice([0, rng.randint(1, 999999)])
+    elif kind == "n-days":
+        d, sec, us = rng.randint(1, 30), 0, 0
+    elif kind == "days-fraction":
+        d, sec, us = rng.randint(1, 9), rng.randint(0, 86399), rng.randint(0, 999999)
+    elif kind == "tens-of-days":
+        d, sec, us = rng.randint(10, 60), rng.randint(0, 86399), rng.choice([0, rng.randint(1, 999999)])
+    else:
+        d, sec, us = 1, rng.randint(0, 7200), rng.choice([0, rng.randint(1, 999999)])
+    return d, sec, us, kind
+
+
+def td_total(d, sec, us):
+    """seconds of timedelta(days=d, seconds=sec, microseconds=us), computed here (not with timedelta.total_seconds)"""
+    return ((d * 86400 + sec) * 10 ** 6 + us) / 10 ** 6
+
+
+def scaled_geometry(rng, pro, total, mu, axis):
+    """a geometry (gen_geometry) scaled so that `total` seconds is `factor` (1.05 .. 5) times the parabolic time of the way round
+    designated by the request: an elliptic transfer of less than one revolution lasting exactly the requested duration"""
+    g = gen_geometry(rng, axis)
+    factor = rng.choice([rng.uniform(1.05, 1.5), rng.uniform(1.5, 5.0)])
+    zone = geom_zone(g["r0"], g["r1"])[0]
+    crz = cross3(g["r0"], g["r1"])[2]
+    long_way = True if zone in ("crz0", "crz~0") else not ((crz > 0) == pro)
+    tp0 = t_parab(g["r0"], g["r1"], long_way, mu)
+    k = (total / (factor * tp0)) ** (2 / 3)           # the parabolic time grows as length^1.5
+    return {"r0": [x * k for x in g["r0"]], "r1": [x * k for x in g["r1"]], "plane": g["plane"]}, factor
+
+
+def check_lambert_duration(out, rng, kind=None, preset=None):
+    """Lambert velocities for a requested duration given as timedelta(days, seconds, microseconds), propagated (independent
+    universal-variable two-body propagation) for the REQUESTED duration: arrival at the target, both ends, every request"""
+    import numpy as np
+    from beyond.dates import Date, timedelta
+    from beyond.orbits import Orbit
+    from beyond.utils.lambert import lambert, _lambert
+    from beyond import constants
+    mu = constants.Earth.mu
+    if preset:
+        d, sec, us, kind, pro, api, g = (preset[k] for k in ("days", "seconds", "microseconds", "kind", "prograde", "api", "geometry"))
+        total = td_total(d, sec, us)
+    else:
+        d, sec, us, kind = gen_duration(rng, kind)
+        total = td_total(d, sec, us)
+        pro = rng.random() < 0.5
+        api = rng.choice(["array", "orbit"])
+        g, _ = scaled_geometry(rng, pro, total, mu, axis=rng.random() < 0.3)
+    r0, r1 = np.array(g["r0"], float), np.array(g["r1"], float)
+    zone, _ = geom_zone(g["r0"], g["r1"])
+    short = None if zone in ("crz0", "crz~0") else ((cross3(g["r0"], g["r1"])[2] > 0) == pro)
+    way = "either" if short is None else "short" if short else "long"
+    inp = {"days": d, "seconds": sec, "microseconds": us, "total_seconds": total, "kind": kind, "prograde": pro, "api": api, "geometry": g, "mu": mu}
+    out.count(key=("lambert-duration", d, sec, us, tuple(g["r0"]), pro), kind="lambert-duration-" + kind, prograde=pro, way=way, api=api)
+    dur = timedelta(days=d, seconds=sec, microseconds=us)
+    if api == "orbit":
+        d0 = Date(2021, 3, 4, 5, 6, 7)
+        o0 = Orbit(list(r0) + [0.0, 0.0, 0.0], d0, "cartesian", "EME2000", None)
+        o1 = Orbit(list(r1) + [0.0, 0.0, 0.0], d0 + dur, "cartesian", "EME2000", None)
+        s0, s1 = lambert(o0, o1, pro)
+        v0, v1 = np.array(s0[3:], float), np.array(s1[3:], float)
+    else:
+        v0, v1 = (np.array(x, float) for x in _lambert(r0, r1, dur, mu, pro))
+    tag = f"{kind}-{'prograde' if pro else 'retrograde'}"
+    if not (np.all(np.isfinite(v0)) and np.all(np.isfinite(v1)) and float(max(np.abs(v0).max(), np.abs(v1).max())) < 1e5):
+        out.fail("lambert-duration-nonfinite-" + tag, "Lambert solver returns non-finite or absurd velocities for a transfer time with an elliptic solution of less than one revolution", inp,
+                 observed=[float(x) for x in v0])
+        return
+    size = float(np.linalg.norm(r0) + np.linalg.norm(r1))
+    tol = max(10.0, 2e-9 * size)
+    err = float(np.linalg.norm(kepler_uv(r0, v0, total, mu) - r1))
+    back = float(np.linalg.norm(kepler_uv(r1, -v1, total, mu) - r0))
+    if not (err < tol and back < tol):
+        out.fail("lambert-duration-arrival-" + tag, "velocities returned by the Lambert solver, propagated with two-body dynamics for the REQUESTED duration "
+                 f"({d} d {sec} s {us} us), do not arrive at the target (resp. come back to the start)", inp,
+                 observed={"miss_m": err, "miss_back_m": back, "v0": [float(x) for x in v0]}, expected={"miss_m": f"< {tol}"})
 
 
 # ---------------------------------------------------------------- SSO
@@ -1173,11 +1297,22 @@ def correspondence(ctx):
         dth = rng.uniform(0.05, TWO_PI - 0.05)
         A = math.sin(dth) * math.sqrt(nr0 * nr1 / (1 - math.cos(dth)))
         z = rng.choice([0.0, rng.uniform(0.01, 39.0), rng.uniform(0.01, 39.0), -rng.uniform(0.01, 30.0), rng.uniform(1e-6, 0.01)])
-        dur = round(rng.uniform(100, 1e5), 6)
-        real = [L._C(z), L._S(z), L._y(nr0, nr1, A, z), L._F(nr0, nr1, A, z, timedelta(seconds=dur), mu), L._dF(nr0, nr1, A, z)]
+        if rng.random() < 0.5:
+            dur = round(rng.uniform(100, 1e5), 6)
+            td, dkind = timedelta(seconds=dur), "seconds"
+        else:
+            # the duration as days / seconds / microseconds; the model gets the total computed here
+            dd, ds, dus, dkind = gen_duration(rng)
+            dur = td_total(dd, ds, dus)
+            td = timedelta(days=dd, seconds=ds, microseconds=dus)
+            add(" ".join(["td", f2b(float(dd)), f2b(float(ds)), f2b(float(dus))]),
+                lambda rep, td=td, dur=dur, t3=(dd, ds, dus): (f2b(td.total_seconds()) == rep.strip() == f2b(dur)) or out.fail(
+                    "model-timedelta-total", "timedelta.total_seconds() differs from tdTotal of the model (bit-exact comparison)", {"days_seconds_microseconds": t3},
+                    observed=td.total_seconds(), expected=_floats(rep)))
+        real = [L._C(z), L._S(z), L._y(nr0, nr1, A, z), L._F(nr0, nr1, A, z, td, mu), L._dF(nr0, nr1, A, z)]
         inp = {"nr0": nr0, "nr1": nr1, "A": A, "z": z, "duration": dur, "mu": mu}
         out.count(key=("lamfn", nr0, nr1, dth, z), kind="lambert-functions", zsign="0" if z == 0 else ("+" if z > 0 else "-"),
-                  finite=all(math.isfinite(float(x)) for x in real))
+                  finite=all(math.isfinite(float(x)) for x in real), duration=dkind)
         sc = [None, None, nr0 + nr1, math.sqrt(mu) * dur + (nr0 + nr1) ** 1.5, None]
         add(" ".join(["lamfn"] + [f2b(x) for x in (nr0, nr1, A, z, dur, mu)]),
             lambda rep, real=real, inp=inp, sc=sc: _cmp(out, "model-lambert-functions", "_C/_S/_y/_F/_dF differ from the translated formulas", inp, real, _floats(rep)[:5], rtol=1e-9, scales=sc))
@@ -1260,6 +1395,34 @@ def correspondence(ctx):
                     out.fail("model-lambert-dtheta-" + inp["cross_zero_pattern"], "transfer angle / A of the model (translated from _lambert) is degenerate on a non-collinear geometry", inp,
                              observed={"dtheta": d, "A": A, "other_request": dths.get(not pro)}, expected="0 < dtheta < 2 pi, dtheta != pi, A finite and non-zero, the two requests adding up to 2 pi")
             add(" ".join(["dtheta", "1" if pro else "0"] + [f2b(x) for x in g["r0"] + g["r1"]]), chk_d)
+    # 2d. full solver for durations given as timedelta(days, seconds, microseconds): minutes with a fractional second, hours, exactly
+    #     n days, days + fraction, tens of days - on geometry scaled so that the duration is elliptic, less than one revolution
+    for k in range(ctx.n(48, 1800)):
+        dd, ds, dus, dkind = gen_duration(rng, DURATION_KINDS[k % len(DURATION_KINDS)])
+        total = td_total(dd, ds, dus)
+        pro = rng.random() < 0.5
+        g, factor = scaled_geometry(rng, pro, total, mu, axis=(k % 3 == 0))
+        v0, v1 = L._lambert(np.array(g["r0"]), np.array(g["r1"]), timedelta(days=dd, seconds=ds, microseconds=dus), mu, pro)
+        real = [float(x) for x in list(v0) + list(v1)]
+        fin = all(math.isfinite(x) for x in real) and max(abs(x) for x in real) < 1e5
+        inp = dict(g, prograde=pro, days=dd, seconds=ds, microseconds=dus, total_seconds=total, kind=dkind, mu=mu)
+        out.count(key=("lambert-duration", dd, ds, dus, tuple(g["r0"]), pro), kind="lambert-solve-duration-" + dkind, finite=fin)
+        if not fin:
+            out.fail(f"lambert-duration-nonfinite-{dkind}-{'prograde' if pro else 'retrograde'}", "Lambert solver returns non-finite or absurd velocities for a transfer time with an elliptic "
+                     "solution of less than one revolution", inp, observed=real, expected="finite velocities arriving at r1", violates_property=True)
+
+        def chk(rep, real=real, inp=inp, fin=fin):
+            if rep in ("fuel", "bad-op"):
+                out.fail("model-lambert-solve-duration", "model rejected the request: " + rep, inp, observed=real, expected=rep)
+                return
+            m = _floats(rep)
+            if not fin:
+                return
+            spd = max(abs(x) for x in real)
+            zr = max(abs(m[6]), 1e-4)
+            _cmp(out, "model-lambert-solve-duration-" + inp["kind"], "_lambert velocities for a duration given in days / seconds / microseconds differ from the model run on its total number of seconds",
+                 inp, real, m[:6], rtol=1e-7 * (1 + 0.01 / zr), scales=[spd] * 6)
+        add(" ".join(["lambert", "1" if pro else "0"] + [f2b(x) for x in g["r0"] + g["r1"] + [total, mu]]), chk)
     # 2c. histories on ONE orbit object with a J2 propagator (propagate / write elements in place / write the date): every
     #     propagation against the state machine of the model (whose propagator keeps nothing between two calls)
     for _ in range(ctx.n(80, 2500)):
@@ -1416,32 +1579,46 @@ def correspondence(ctx):
     return out
 
 
+def guarded(out, fn, *args, **kw):
+    """an exception inside one oracle case (the library under test raising, or returning something the independent machinery
+    cannot digest) is a failing input of that case, never a harness error that hides the verdict"""
+    import traceback
+    try:
+        fn(out, *args, **kw)
+    except Exception as e:      # noqa: BLE001
+        tb = traceback.extract_tb(e.__traceback__)
+        where = next((f"{os.path.basename(t.filename)}:{t.name}" for t in reversed(tb) if "/beyond/" in t.filename), f"{os.path.basename(tb[-1].filename)}:{tb[-1].name}")
+        out.fail(f"exception-{fn.__name__}-{type(e).__name__}", f"{fn.__name__} raised {type(e).__name__} ({where})", {"check": fn.__name__, "kwargs": {k: str(v)[:80] for k, v in kw.items()}},
+                 observed=repr(e)[:300], expected="no exception")
+
+
 def oracle(ctx, widened):
     out = Outcome()
     rng = ctx.rng
     big = widened or ctx.thorough
     N = 1200 if big else 120
     for k in range(N):
-        check_lambert(out, gen_lambert(rng, small=(k % 10 == 9)), use_orbit_api=(k % 4 == 0))
+        guarded(out, check_lambert, gen_lambert(rng, small=(k % 10 == 9)), use_orbit_api=(k % 4 == 0))
     for _ in range(N):
-        check_sso(out, rng)
-        check_ltan(out, rng)
-        check_walker(out, rng)
-        check_beta(out, rng)
-        check_bplane(out, rng)
+        guarded(out, check_sso, rng)
+        guarded(out, check_ltan, rng)
+        guarded(out, check_walker, rng)
+        guarded(out, check_beta, rng)
+        guarded(out, check_bplane, rng)
     for k in range(N // 2):
-        check_lambert_pair(out, rng, axis=(k % 5 != 4), use_orbit_api=(k % 3 == 0))
-        check_sso_sequence(out, rng)
-        check_bplane(out, rng, axis=True)
-        check_helper_histories(out, rng)
-        check_lambert_center(out, rng, ("Sun", "Moon", "Earth")[k % 3])
-        check_bplane(out, rng, axis=(k % 2 == 0), center=("Moon", "Sun")[k % 2])
+        guarded(out, check_lambert_pair, rng, axis=(k % 5 != 4), use_orbit_api=(k % 3 == 0))
+        guarded(out, check_sso_sequence, rng)
+        guarded(out, check_bplane, rng, axis=True)
+        guarded(out, check_helper_histories, rng)
+        guarded(out, check_lambert_center, rng, ("Sun", "Moon", "Earth")[k % 3])
+        guarded(out, check_bplane, rng, axis=(k % 2 == 0), center=("Moon", "Sun")[k % 2])
+        guarded(out, check_lambert_duration, rng, kind=DURATION_KINDS[k % len(DURATION_KINDS)])
     if big:
         # every small Walker triple, both patterns, a non-zero raan0
         for p in range(1, 7):
             for sat in range(1, 5):
                 for f in range(p):
-                    check_walker(out, rng, preset=(p * sat, p, f, gen_raan0(rng)))
+                    guarded(out, check_walker, rng, preset=(p * sat, p, f, gen_raan0(rng)))
     out.sample({"checks": "lambert arrival (universal-variable + Kepler propagator) on arcs cut from orbits and on hand-written geometry (exact zeros, axis-aligned, both requests: "
                           "finite, arrival both ends, direction, two ways), sso self-inverse + J2 node rate incl. propagate -> tune in place -> propagate on one object, ltan<->raan, "
                           "walker count/planes/phasing, beta range/elevation incl. axis-aligned, bplane S/orthonormal/B incl. coordinate planes, read - modify in place - read again on the helpers' objects"})
@@ -1454,10 +1631,12 @@ def replay(f):
     import random
     out = Outcome()
     fam, inp = f["family"], f.get("input") or {}
-    if fam.startswith("lambert") and not fam.startswith("lambert-geom") and isinstance(inp, dict) and "dnu" in inp:
+    if fam.startswith("lambert") and not fam.startswith(("lambert-geom", "lambert-duration")) and isinstance(inp, dict) and "dnu" in inp:
         c = {k: inp[k] for k in ("a", "e", "i", "raan", "argp", "nu0", "dnu", "dE", "tof")}
         for api in (False, True):
             check_lambert(out, c, use_orbit_api=api)
+    elif fam.startswith("lambert-duration") and isinstance(inp, dict) and "geometry" in inp:
+        check_lambert_duration(out, random.Random(0), preset=inp)
     elif fam.startswith("lambert-geom") and isinstance(inp, dict) and "r0" in inp:
         g = {"r0": inp["r0"], "r1": inp["r1"], "plane": inp.get("plane", "?")}
         for api in (False, True):
